@@ -17,21 +17,21 @@ def daysInMonth (y : Int) (m : Nat) : Nat :=
   | 2 => if isLeap y then 29 else 28
   | _ => 0
 
-/-- days from 1970-01-01 to y-m-d (Hinnant's `days_from_civil`) -/
+/-- day of the 400-year era from year of era and day of year (years start on 1 March) -/
+def doeOf (yoe doy : Int) : Int := yoe * 365 + yoe / 4 - yoe / 100 + doy
+
+/-- days from 1970-01-01 to y-m-d (Hinnant's `days_from_civil`; `/` on `Int` rounds down, which is what
+    the algorithm's sign adjustments compute with truncating division) -/
 def daysFromCivil (y : Int) (m d : Nat) : Int :=
   let y' : Int := if m ≤ 2 then y - 1 else y
-  let era : Int := (if y' ≥ 0 then y' else y' - 399) / 400
+  let era : Int := y' / 400
   let yoe : Int := y' - era * 400
   let mp : Int := (Int.ofNat m + 9) % 12
   let doy : Int := (153 * mp + 2) / 5 + Int.ofNat d - 1
-  let doe : Int := yoe * 365 + yoe / 4 - yoe / 100 + doy
-  era * 146097 + doe - 719468
+  era * 146097 + doeOf yoe doy - 719468
 
-/-- inverse (Hinnant's `civil_from_days`) -/
-def civilFromDays (z0 : Int) : Int × Nat × Nat :=
-  let z := z0 + 719468
-  let era : Int := (if z ≥ 0 then z else z - 146096) / 146097
-  let doe : Int := z - era * 146097
+/-- year, month, day from era and day of era -/
+def civilOfEra (era doe : Int) : Int × Nat × Nat :=
   let yoe : Int := (doe - doe / 1460 + doe / 36524 - doe / 146096) / 365
   let y : Int := yoe + era * 400
   let doy : Int := doe - (365 * yoe + yoe / 4 - yoe / 100)
@@ -39,6 +39,12 @@ def civilFromDays (z0 : Int) : Int × Nat × Nat :=
   let d : Int := doy - (153 * mp + 2) / 5 + 1
   let m : Int := if mp < 10 then mp + 3 else mp - 9
   (if m ≤ 2 then y + 1 else y, m.toNat, d.toNat)
+
+/-- inverse (Hinnant's `civil_from_days`) -/
+def civilFromDays (z0 : Int) : Int × Nat × Nat :=
+  let z := z0 + 719468
+  let era : Int := z / 146097
+  civilOfEra era (z - era * 146097)
 
 def validCivil (y : Int) (m d : Nat) : Bool := 1 ≤ m && m ≤ 12 && 1 ≤ d && d ≤ daysInMonth y m
 
